@@ -139,6 +139,56 @@ pub proof fn lemma_dot_cons(u: Seq<Rg>, y: Seq<Rg>)
     }
 }
 
+
+// ------------------------------------------------------------------ cancellation (for uniqueness of solutions)
+/// t + b == b  ==>  t == 0   (b has the additive inverse 0 - b)
+pub proof fn rg_cancel(t: Rg, b: Rg)
+    requires rg_add(t, b) == b,
+    ensures t == rg_zero(),
+{
+    let nb = rg_sub(rg_zero(), b);
+    ax_sub_add(rg_zero(), b);            // nb + b == 0
+    ax_add_comm(nb, b);                  // b + nb == 0
+    ax_add_assoc(t, b, nb);              // (t + b) + nb == t + (b + nb)
+    ax_add_zero(t);
+}
+/// u * y == 0 with u invertible  ==>  y == 0
+pub proof fn rg_unit_cancel(u: Rg, y: Rg)
+    requires rg_mul(u, y) == rg_zero(), rg_unit(u),
+    ensures y == rg_zero(),
+{
+    let r = rg_sdiv(1real, u);
+    ax_recip(u);                         // r * u == 1
+    ax_mul_assoc(r, u, y);               // (r*u)*y == r*(u*y)
+    ax_mul_zero(r);
+    ax_mul_comm(rg_one(), y);
+    ax_mul_one(y);
+}
+pub proof fn lemma_dot_comm(u: Seq<Rg>, y: Seq<Rg>)
+    requires u.len() == y.len(),
+    ensures dot(u, y) == dot(y, u),
+{
+    assert forall|i: int| 0 <= i < u.len() implies #[trigger] zipmul(u, y)[i] == zipmul(y, u)[i] by { ax_mul_comm(u[i], y[i]); }
+    assert(zipmul(u, y) =~= zipmul(y, u));
+}
+pub proof fn lemma_dot_zeros_r(u: Seq<Rg>, y: Seq<Rg>)
+    requires u.len() == y.len(), forall|m: int| 0 <= m < y.len() ==> #[trigger] y[m] == rg_zero(),
+    ensures dot(u, y) == rg_zero(),
+{
+    lemma_dot_comm(u, y);
+    lemma_dot_zeros(y, u);
+}
+/// x = z + y pointwise  ==>  <u, x> == <u, z> + <u, y>
+pub proof fn lemma_dot_add_r(u: Seq<Rg>, z: Seq<Rg>, y: Seq<Rg>, x: Seq<Rg>)
+    requires u.len() == z.len(), u.len() == y.len(), u.len() == x.len(), forall|m: int| 0 <= m < u.len() ==> #[trigger] x[m] == rg_add(z[m], y[m]),
+    ensures dot(u, x) == rg_add(dot(u, z), dot(u, y)),
+{
+    assert forall|m: int| 0 <= m < u.len() implies #[trigger] x[m] == rg_add(z[m], rg_mul(rg_one(), y[m])) by { ax_mul_comm(rg_one(), y[m]); ax_mul_one(y[m]); }
+    lemma_dot_lincomb(z, y, x, u, rg_one());
+    lemma_dot_comm(u, x); lemma_dot_comm(u, z); lemma_dot_comm(u, y);
+    ax_mul_comm(rg_one(), dot(y, u)); ax_mul_one(dot(y, u));
+}
+
 /// the inner product only looks at the elements
 pub proof fn lemma_dot_ext(u: Seq<Rg>, u2: Seq<Rg>, y: Seq<Rg>, y2: Seq<Rg>)
     requires u =~= u2, y =~= y2,
